@@ -36,8 +36,16 @@ extern Ctx* g;
 // ---- scheduler with a context tag ------------------------------------------------------------------
 // schedule() completes inline (value, regardless of the stop token) unless deferred scheduling is on, in
 // which case it becomes a pending event "run item on context <tag>".
+// Moving from a tag_sched empties it (tag -7), like a scheduler that owns a handle: an adaptor that forwards
+// its scheduler argument twice hands the moved-from one to whoever comes second.
 struct tag_sched {
   int tag = 0;
+  tag_sched() = default;
+  explicit tag_sched(int t) noexcept : tag(t) {}
+  tag_sched(const tag_sched&) = default;
+  tag_sched& operator=(const tag_sched&) = default;
+  tag_sched(tag_sched&& o) noexcept : tag(o.tag) { o.tag = -7; }
+  tag_sched& operator=(tag_sched&& o) noexcept { tag = o.tag; if (&o != this) o.tag = -7; return *this; }
   struct sender;
   sender schedule() const noexcept;
   friend bool operator==(tag_sched a, tag_sched b) noexcept { return a.tag == b.tag; }
